@@ -39,7 +39,8 @@ Record smodel := {
   sm_tps : tps_t;
   sm_first : string;
   sm_rows : list (list string);     (* smmodel.transition_table as given *)
-  if_structs : list string; if_protos : list string; if_msgs : list string     (* of the events interface *)
+  if_structs : list string; if_protos : list string; if_msgs : list string;    (* of the events interface *)
+  if_msgids : list (string * string)      (* message name -> str(MessageTypeID) *)
 }.
 
 Definition transition_of (r : row) : transition :=
@@ -107,8 +108,14 @@ Definition tt_model (tt : list row) (structs protos msgs : list string) : option
               sm_actions := tt_collect r_action tt; sm_guards := tt_collect r_guard tt;
               sm_actionsigs := tt_actionsigs tt; sm_tps := tps_close (tt_states tt) tps;
               sm_first := match tt with [] => "NO TT PRESENT!" | r :: _ => r_state r end; sm_rows := map norm_row tt;
-              if_structs := structs; if_protos := protos; if_msgs := msgs |}
+              if_structs := structs; if_protos := protos; if_msgs := msgs; if_msgids := [] |}
   end.
+
+(* the same model with the message ids of the events interface *)
+Definition with_msgids (ids : list (string * string)) (m : smodel) : smodel :=
+  {| sm_states := sm_states m; sm_events := sm_events m; sm_actions := sm_actions m; sm_guards := sm_guards m;
+     sm_actionsigs := sm_actionsigs m; sm_tps := sm_tps m; sm_first := sm_first m; sm_rows := sm_rows m;
+     if_structs := if_structs m; if_protos := if_protos m; if_msgs := if_msgs m; if_msgids := ids |}.
 
 (* ---------------------------------------------------------------- inner expansion functions *)
 Definition rep (tagname v : string) (l : string) : string := replace_all (stag tagname) v l.
@@ -175,10 +182,24 @@ Fixpoint second_items (names : string -> nat -> nat -> string -> string) (alpha 
       end
   end.
 
+(* PER_MSG blocks: <<<MSGID>>> becomes str(events_interface[name].MessageTypeID) (guarded by hasSpecificTag, which holds whenever the
+   tag is there; a message without id raises -- the model then leaves the tag to the unmodelled-tag test) *)
+Definition idof (ids : list (string * string)) (name : string) : string :=
+  match lookup String.eqb name ids with Some i => i | None => EmptyString end.
+Definition msgid_names (ids : list (string * string)) (name : string) (alpha cnt : nat) (line : string) : string :=
+  rep "__TAG_MSGID__" (idof ids name) (proto_names name alpha cnt line).
+
 Definition inner_second (items : list string) (snippet : list string) (param : option string) : option (list string) :=
   match param with Some _ => None | None => second_items second_names reset_alphabet 0 items snippet end.
 Definition inner_proto (items : list string) (snippet : list string) (param : option string) : option (list string) :=
   match param with Some _ => None | None => second_items proto_names reset_alphabet 0 items snippet end.
+
+Definition inner_msgs (ids : list (string * string)) (items : list string) (snippet : list string) (param : option string) : option (list string) :=
+  match param with
+  | Some _ => None
+  | None => if forallb (fun n => mem String.eqb n ids) items then second_items (msgid_names ids) reset_alphabet 0 items snippet
+            else second_items proto_names reset_alphabet 0 items snippet
+  end.
 
 Definition sig_event (e : string) : string :=
   if String.eqb e "" || String.eqb (lower e) "none" then "NONE" else if String.eqb (lower e) "any" then "ANY" else e.
@@ -287,7 +308,7 @@ Definition inner_of (m : smodel) (inner coll : string)
   else if String.eqb inner "innerexpand_secondfiltering_PROTO" then
     if String.eqb coll "events_interface.StructNames()" then Some (inner_proto (if_structs m))
     else if String.eqb coll "events_interface.ProtocolStructNames()" then Some (inner_proto (if_protos m))
-    else if String.eqb coll "events_interface.MessageNames()" then Some (inner_proto (if_msgs m))
+    else if String.eqb coll "events_interface.MessageNames()" then Some (inner_msgs (if_msgids m) (if_msgs m))
     else None
   else None.
 
